@@ -145,3 +145,50 @@ def undefined_names(prog, rep, wheres=None, rule='X2-name'):
             if isinstance(n, ast.Name) and isinstance(n.ctx, ast.Load):
                 if n.id not in bound and n.id not in bnames:
                     yield fn, n
+
+
+MEMO_DECORATORS = {'lru_cache', 'cache', 'cached_property', 'memoize'}
+
+
+def check_memoised(prog, rep, modules=None, rule='A-memo'):
+    """A memoised function hands the SAME object to every caller; when that
+    object is mutable (ndarray / list / dict) one caller's in-place edit
+    changes what every later call returns.  Positive rule: expected count on
+    the pinned tree is 0 (there is no memoisation), the self-test keeps a
+    positive example."""
+    from . import interp as _interp
+    n = 0
+    for fn in prog.all_functions():
+        node = fn.node
+        if not isinstance(node, ast.FunctionDef):
+            continue
+        if modules is not None and fn.module.name not in modules:
+            continue
+        decos = []
+        for d in node.decorator_list:
+            f = d.func if isinstance(d, ast.Call) else d
+            name = f.attr if isinstance(f, ast.Attribute) else (
+                f.id if isinstance(f, ast.Name) else None)
+            if name in MEMO_DECORATORS:
+                decos.append(name)
+        if not decos:
+            continue
+        n += 1
+        I = _interp.Interp(prog, {})
+        try:
+            res = I.run_function(fn, {})
+        except Exception:
+            res = None
+        kind = res.k if res is not None else 'top'
+        mutable = kind in ('arr', 'list', 'dict', 'obj')
+        status = 'violation' if mutable else (
+            'ok' if kind in ('int', 'float', 'bool', 'str', 'none', 'tuple')
+            else 'unknown')
+        rep.add(rule, fn.qualname, '@%s on a function returning %s'
+                % (decos[0], kind), status,
+                '' if status != 'violation' else 'the memoised function '
+                'returns one shared mutable %s to every caller: an in-place '
+                'edit of a result changes what later calls with equal '
+                'arguments return' % {'arr': 'array'}.get(kind, kind),
+                line=node.lineno, file=fn.module.path)
+    return n
